@@ -193,6 +193,10 @@ class Check:
                 raise ToolError(f"TLC GEN {g['module']} failed")
             cases = []
             for line in out.splitlines():
+                m = re.match(r'\s*<<"CASE", (".*")>>\s*$', line)     # PrintT(<<"CASE", ToJson(x)>>)
+                if m:
+                    cases.append(json.loads(m.group(1)))
+                    continue
                 i = line.find("CASE ")
                 if i >= 0:
                     s = line[i + 5:].strip()
